@@ -179,7 +179,10 @@ func (g *c17Gen) path(b *ast.Builder) (string, ast.Type) {
 	}
 	f := pick(g.r, fs)
 	p, t := f.Name, f.Type
-	if g.r.chance(40) {
+	if f2 := g.fieldNamed(fs, "nest"); f2 != nil && g.r.chance(45) {
+		p, t = f2.Name, f2.Type // the deep chain nest.inner.leaf.<field>
+	}
+	for hop := 0; hop < 3 && g.r.chance(60); hop++ {
 		// one more hop if the field is a struct or a ref to an object that has a builder
 		var inner []ast.StructField
 		if isRealStruct(t) {
@@ -192,12 +195,29 @@ func (g *c17Gen) path(b *ast.Builder) (string, ast.Type) {
 				}
 			}
 		}
-		if len(inner) > 0 {
-			f2 := pick(g.r, inner)
-			p, t = p+"."+f2.Name, f2.Type
+		if len(inner) == 0 {
+			break
 		}
+		f2 := pick(g.r, inner)
+		if strings.HasPrefix(p, "nest") && g.r.chance(70) { // stay on the chain
+			for _, c := range inner {
+				if c.Name == "inner" || c.Name == "leaf" {
+					f2 = c
+				}
+			}
+		}
+		p, t = p+"."+f2.Name, f2.Type
 	}
 	return p, t
+}
+
+func (g *c17Gen) fieldNamed(fs []ast.StructField, name string) *ast.StructField {
+	for i := range fs {
+		if fs[i].Name == name {
+			return &fs[i]
+		}
+	}
+	return nil
 }
 
 func (g *c17Gen) constantFor(t ast.Type) any {
